@@ -199,7 +199,138 @@ func deployMuFacts(repo string) (muFacts, error) {
 	return mf, nil
 }
 
+// go/ast fact about the SetParent calls of (*Manager).acquireTasks: whom does a failed acquisition un-parent, and when are
+// the reuse candidates (tasksAlreadyRunning: roster tasks the call merely earmarked) given a parent?
+//
+// failedAcquireUnparentsOnlyDeployed holds iff
+//   - every `X.SetParent(nil)` of the function has as receiver X the key variable of an enclosing
+//     `for X[, _] := range deployedTasks` loop — the tasks THIS call has just launched —, and there is at least one;
+//   - `deployedTasks` is only ever assigned `make(DeploymentMap)` or `roOutcome.deployed` (what resourceOffers launched for
+//     this very request);
+//   - every `X.SetParent(…)` whose receiver is the key variable of a `for X… := range tasksAlreadyRunning` loop has a
+//     non-nil argument and stands inside an `if deploymentSuccess { … }` block (the claim happens on success only), and
+//     there is at least one.
+//
+// So the failure branch touches the parent of no task the call did not launch: in particular not of a reuse candidate that
+// another environment may have taken over meanwhile (model: createSettle_spares_foreign — C04_failed_create_unparents_only_own_is_code).
+type parentFacts struct {
+	ok                                       bool
+	nilSites, nilOverDeployed                int
+	reuseSites, reuseOnSuccess               int
+	deployedAssigns, deployedAssignsFromCall int
+}
+
+func setParentFacts(repo string) (parentFacts, error) {
+	var pf parentFacts
+	fset := token.NewFileSet()
+	f, err := parser.ParseFile(fset, filepath.Join(repo, "core/task/manager.go"), nil, 0)
+	if err != nil {
+		return pf, err
+	}
+	var fn *ast.FuncDecl
+	for _, d := range f.Decls {
+		if fd, ok := d.(*ast.FuncDecl); ok && fd.Name.Name == "acquireTasks" && fd.Body != nil {
+			fn = fd
+		}
+	}
+	if fn == nil {
+		return pf, fmt.Errorf("core/task/manager.go: acquireTasks not found")
+	}
+	identName := func(e ast.Expr) string {
+		if id, ok := e.(*ast.Ident); ok {
+			return id.Name
+		}
+		return ""
+	}
+	// walk with the stack of enclosing range loops / if conditions
+	type frame struct {
+		rangeKey, rangeOver string
+		ifCond              string
+	}
+	var walk func(n ast.Node, st []frame)
+	walk = func(n ast.Node, st []frame) {
+		switch x := n.(type) {
+		case nil:
+			return
+		case *ast.FuncLit:
+			return
+		case *ast.RangeStmt:
+			fr := frame{rangeKey: identName(x.Key), rangeOver: identName(x.X)}
+			walk(x.Body, append(append([]frame{}, st...), fr))
+			return
+		case *ast.IfStmt:
+			if x.Init != nil {
+				walk(x.Init, st)
+			}
+			walk(x.Body, append(append([]frame{}, st...), frame{ifCond: identName(x.Cond)}))
+			if x.Else != nil {
+				walk(x.Else, st)
+			}
+			return
+		case *ast.AssignStmt:
+			for i, l := range x.Lhs {
+				if identName(l) == "deployedTasks" && i < len(x.Rhs) {
+					pf.deployedAssigns++
+					switch r := x.Rhs[i].(type) {
+					case *ast.CallExpr:
+						if identName(r.Fun) == "make" {
+							pf.deployedAssignsFromCall++
+						}
+					case *ast.SelectorExpr:
+						if identName(r.X) == "roOutcome" && r.Sel.Name == "deployed" {
+							pf.deployedAssignsFromCall++
+						}
+					}
+				}
+			}
+		case *ast.CallExpr:
+			if sel, ok := x.Fun.(*ast.SelectorExpr); ok && sel.Sel.Name == "SetParent" && len(x.Args) == 1 {
+				recv := identName(sel.X)
+				over := ""
+				onSuccess := false
+				for _, fr := range st {
+					if fr.rangeKey != "" && fr.rangeKey == recv {
+						over = fr.rangeOver
+					}
+					if fr.ifCond == "deploymentSuccess" {
+						onSuccess = true
+					}
+				}
+				isNil := identName(x.Args[0]) == "nil"
+				if isNil {
+					pf.nilSites++
+					if over == "deployedTasks" {
+						pf.nilOverDeployed++
+					}
+				}
+				if over == "tasksAlreadyRunning" {
+					pf.reuseSites++
+					if !isNil && onSuccess {
+						pf.reuseOnSuccess++
+					}
+				}
+			}
+		}
+		// generic descent
+		ast.Inspect(n, func(c ast.Node) bool {
+			if c == n || c == nil {
+				return true
+			}
+			walk(c, st)
+			return false
+		})
+	}
+	walk(fn.Body, nil)
+	pf.ok = pf.nilSites >= 1 && pf.nilSites == pf.nilOverDeployed && pf.reuseSites >= 1 && pf.reuseSites == pf.reuseOnSuccess &&
+		pf.deployedAssigns >= 1 && pf.deployedAssigns == pf.deployedAssignsFromCall
+	return pf, nil
+}
+
 func genFacts(repo string) (string, error) {
+	pf, err := setParentFacts(repo)
+	if err != nil {
+		return "", err
+	}
 	mf, err := deployMuFacts(repo)
 	if err != nil {
 		return "", err
@@ -212,6 +343,12 @@ func genFacts(repo string) (string, error) {
 	fmt.Fprintf(&b, "def lockUnlockPaired : Bool := %v\n\n", mf.paired)
 	fmt.Fprintf(&b, "/-- number of `deployMu.Lock()` calls in acquireTasks -/\ndef deployMuLocks : Nat := %d\n\n", mf.locks)
 	fmt.Fprintf(&b, "/-- number of `deployMu.Unlock()` calls in acquireTasks -/\ndef deployMuUnlocks : Nat := %d\n\n", mf.unlocks)
+	b.WriteString("/-- core/task/manager.go, (*Manager).acquireTasks (go/ast): every `SetParent(nil)` is applied to the key of a range over\n" +
+		"    `deployedTasks` (only ever `make(DeploymentMap)` or `roOutcome.deployed`: the tasks this call launched), and every SetParent on a\n" +
+		"    key of `tasksAlreadyRunning` (the reuse candidates) has a non-nil argument and stands under `if deploymentSuccess` -/\n")
+	fmt.Fprintf(&b, "def failedAcquireUnparentsOnlyDeployed : Bool := %v\n\n", pf.ok)
+	fmt.Fprintf(&b, "/-- (SetParent(nil) sites, of which over deployedTasks, SetParent sites over tasksAlreadyRunning, of which non-nil under `if deploymentSuccess`) -/\n"+
+		"def acquireSetParentCounts : Nat × Nat × Nat × Nat := (%d, %d, %d, %d)\n\n", pf.nilSites, pf.nilOverDeployed, pf.reuseSites, pf.reuseOnSuccess)
 	b.WriteString("end Gen\n")
 	return b.String(), nil
 }
